@@ -18,11 +18,19 @@ extern "C" void h_mem() {
         File f; f.compressionLevel = 0; f.setDefaultLogContainerSize(CFG_CONTAINER); f.writeRestorePoints = false;
         // scaled-down back-pressure thresholds (the public API fixes them at 128 KiB / 10 objects): the bound must
         // hold relative to them, whatever their value
+#ifndef UNSCALED
         f.m_uncompressedFile.setBufferSize(CFG_CONTAINER + TEXTLEN); f.m_readWriteQueue.setBufferSize(2);
+#endif
         f.open(VP_FILE("a.blf"), std::ios_base::out);
         uint64_t base = vp_live_heap();
         for (int i = 0; i < NOBJ; i++) {
+#ifdef UNSCALED
+            // the thresholds the public API really uses (128 KiB / 10 objects, container size above 128 KiB): large
+            // objects, the first 16 text bytes symbolic, the rest concrete filler
+            AppText * t = new AppText; t->text.assign(TEXTLEN, 'x'); vp_bytes(&t->text[0], 16, "text"); t->source = vp_u32("src");
+#else
             AppText * t = new AppText; t->text.resize(TEXTLEN); vp_bytes(&t->text[0], TEXTLEN, "text"); t->source = vp_u32("src");
+#endif
             f.write(t);
             vp_yield();                       // slow producer: the workers run until they block
             uint64_t h = vp_live_heap() - base; if (h > wpeak) wpeak = h;
@@ -49,7 +57,9 @@ extern "C" void h_mem() {
     uint64_t rpeak = 0; int cnt = 0;
     {
         File g;
+#ifndef UNSCALED
         g.m_uncompressedFile.setBufferSize(CFG_CONTAINER + TEXTLEN); g.m_readWriteQueue.setBufferSize(2);
+#endif
         uint64_t base = vp_live_heap();
         g.open(VP_FILE("a.blf"), std::ios_base::in);
         for (;;) {
